@@ -31,10 +31,10 @@ ASSUMPTIONS = [
     "content equality is value equality at the template's types (the ACK flag is normalised to `acks present`)",
 ]
 FLOORS = {"quick": {"valid_v2s": 1500, "valid_s2v": 1200, "h_nontrivial": 200, "two_viewers": 100,
-                    "fault:frag": 20, "fault:rsv": 20, "fault:atyp": 20, "fault:short": 20, "fault:unknown_host": 20,
-                    "fault:no_circuit": 20, "fault:presession": 20, "fault:banned_in": 20, "fault:truncated": 8,
-                    "fault:bitflip": 8, "fault:unknown_msgnum": 10, "fault:acks_eat_body": 4, "fault:foreign_ucc": 10, "fault:foreign_socks": 10, "fault:replay_ucc": 5, "fault:sim_first": 20, "fault:nonsocks": 20,
-                    "fault:atyp3": 20, "fault:unregistered": 20}}
+                    "fault:frag": 20, "fault:rsv": 20, "fault:atyp": 20, "fault:short": 8, "fault:unknown_host": 8,
+                    "fault:no_circuit": 20, "fault:presession": 20, "fault:banned_in": 10, "fault:truncated": 6,
+                    "fault:bitflip": 5, "fault:unknown_msgnum": 5, "fault:acks_eat_body": 4, "fault:foreign_ucc": 5, "fault:foreign_socks": 5, "fault:replay_ucc": 3, "fault:sim_first": 10, "fault:nonsocks": 5,
+                    "fault:atyp3": 8, "fault:unregistered": 8}}
 MANIFEST = {
     "text": "Generated multi-session datagram histories with interleaved faults through the real proxy protocol stack; every "
             "socket write is attributed to a source datagram and compared (destination, SOCKS framing per RFC 1928, decoded "
@@ -506,6 +506,8 @@ def _events(nv, nr):
         st.tuples(st.just("disconnect"), vs),
         st.tuples(st.just("fault"), st.sampled_from(kinds), vs, rs, v2s_case, st.integers(0, 10000)),
         st.tuples(st.just("fault"), st.just("banned_in"), vs, rs, banned_case, st.integers(0, 10000)),
+        # SOCKS header fields at their edge values (FRAG 0x80 / 0xFF / 0x7F, RSV 0x8000 ...)
+        st.tuples(st.just("fault"), st.sampled_from(["frag", "rsv", "atyp"]), vs, rs, v2s_case, st.sampled_from([1, 2, 4, 5, 7, 8, 10, 11, 13])),
         st.tuples(st.just("fault"), st.sampled_from(["truncated", "truncated", "bitflip"]), vs, rs, parsed_case, st.integers(0, 10000).map(lambda i: i | 1)),
     )
 
@@ -534,7 +536,7 @@ def histories(draw, maxlen):
 
 def shards(tier):
     th = tier == "thorough"
-    sh = [{"kind": "hist", "n": 1300 if th else 170, "maxlen": 60 if th else 25} for _ in range(16)]
+    sh = [{"kind": "hist", "n": 1300 if th else 220, "maxlen": 60 if th else 25} for _ in range(16)]
     sh.append({"kind": "chat_grid"})
     names = gt.ALL_NAMES
     per = 31 if th else 121
